@@ -1,8 +1,7 @@
 /-
-  The name stack along an HTML serialisation (C19_unprefixed_end): the events of one subtree
-  leave the stack as they found it, except that bindings of the empty prefix may have been
-  appended to the top frame (`add_empty_prefix`).  Hence the default binding an element sees at
-  its start tag is still there at its end tag.
+  Runs of the HTML serialiser (C19_unprefixed_end, C19_embedded): `runHtml` = final state and
+  rendered tokens of a run in which every `render_output` succeeds; the frames an element's
+  start tag pushes are exactly the frames its end tag pops.
 -/
 import XotModel.Lemmas.Events
 import XotModel.Model.Html5
@@ -12,7 +11,7 @@ open Gen
 
 /-- Final state and rendered tokens of a run in which every `render_output` succeeds. -/
 def runHtml (c : HtmlCtx) (t : Tree) :
-    FStack → List (Path × Output) → Option (FStack × List (Path × Output × OutputToken))
+    HState → List (Path × Output) → Option (HState × List (Path × Output × OutputToken))
   | s, [] => some (s, [])
   | s, (p, o) :: rest =>
     match renderHtmlAt c t s p o with
@@ -75,33 +74,70 @@ theorem renderHtmlAll_run (c : HtmlCtx) (t : Tree) (outs : List (Path × Output)
     | err e => rw [hr] at h; cases h
     | panic => rw [hr] at h; cases h
 
-/-! ### Growth of the top frame -/
+theorem runHtml_cons_some {c : HtmlCtx} {t : Tree} {s sf : HState} {p : Path} {o : Output}
+    {rest : List (Path × Output)} {l : List (Path × Output × OutputToken)}
+    (h : runHtml c t s ((p, o) :: rest) = some (sf, l)) :
+    ∃ s1 tok l', renderHtmlAt c t s p o = .ok (s1, tok) ∧ runHtml c t s1 rest = some (sf, l') ∧
+      l = (p, o, tok) :: l' := by
+  simp only [runHtml] at h
+  cases hr : renderHtmlAt c t s p o with
+  | ok v =>
+    obtain ⟨s1, tok⟩ := v
+    rw [hr] at h
+    simp only at h
+    cases h2 : runHtml c t s1 rest with
+    | none => rw [h2] at h; cases h
+    | some r =>
+      obtain ⟨sf', l'⟩ := r
+      rw [h2] at h
+      simp only [Option.some.injEq, Prod.mk.injEq] at h
+      obtain ⟨rfl, rfl⟩ := h
+      exact ⟨s1, tok, l', rfl, h2, rfl⟩
+  | err e => rw [hr] at h; cases h
+  | panic => rw [hr] at h; cases h
 
-/-- `s'` is `s` with bindings of the empty prefix appended to the top frame. -/
-def Grow (s s' : FStack) : Prop :=
-  ∃ top extra rest, s = top :: rest ∧ s' = (top ++ extra) :: rest ∧ ∀ x ∈ extra, x.1 = Env.emptyPrefix
+theorem runHtml_append_some {c : HtmlCtx} {t : Tree} {s sf : HState} {a b : List (Path × Output)}
+    {l : List (Path × Output × OutputToken)} (h : runHtml c t s (a ++ b) = some (sf, l)) :
+    ∃ s1 l1 l2, runHtml c t s a = some (s1, l1) ∧ runHtml c t s1 b = some (sf, l2) ∧ l = l1 ++ l2 := by
+  rw [runHtml_append] at h
+  cases h1 : runHtml c t s a with
+  | none => rw [h1] at h; cases h
+  | some r1 =>
+    obtain ⟨s1, l1⟩ := r1
+    rw [h1] at h
+    simp only [Option.bind_some] at h
+    cases h2 : runHtml c t s1 b with
+    | none => rw [h2] at h; cases h
+    | some r2 =>
+      obtain ⟨s2, l2⟩ := r2
+      rw [h2] at h
+      simp only [Option.map_some, Option.some.injEq, Prod.mk.injEq] at h
+      obtain ⟨rfl, rfl⟩ := h
+      exact ⟨s1, l1, l2, rfl, h2, rfl⟩
 
-theorem Grow.refl {s : FStack} (h : s ≠ []) : Grow s s := by
-  cases s with
-  | nil => exact absurd rfl h
-  | cons top rest => exact ⟨top, [], rest, rfl, by simp, by simp⟩
+/-! ### Frames pushed = frames popped -/
 
-theorem Grow.trans {a b d : FStack} (h1 : Grow a b) (h2 : Grow b d) : Grow a d := by
-  obtain ⟨top, e1, rest, rfl, rfl, he1⟩ := h1
-  obtain ⟨top2, e2, rest2, hb, rfl, he2⟩ := h2
-  simp only [List.cons.injEq] at hb
-  obtain ⟨rfl, rfl⟩ := hb
-  refine ⟨top, e1 ++ e2, rest, rfl, by simp, ?_⟩
-  intro x hx
-  rcases List.mem_append.mp hx with h | h
-  · exact he1 x h
-  · exact he2 x h
+theorem push_ne_nil {s : FStack} (h : s ≠ []) (decls : List (Nat × Nat)) : s.push decls ≠ [] := by
+  unfold FStack.push; split
+  · exact h
+  · simp
 
-theorem Grow.ne_nil {s s' : FStack} (h : Grow s s') : s' ≠ [] := by
-  obtain ⟨_, _, _, _, rfl, _⟩ := h; simp
+/-- `push` of the (possibly empty) declarations, undone by popping the counted frames. -/
+theorem popFrames_push (s : FStack) (decls : List (Nat × Nat)) :
+    popFrames (if decls.isEmpty then 0 else 1) (s.push decls) = s := by
+  unfold FStack.push
+  by_cases hd : decls.isEmpty = true
+  · simp [hd, popFrames]
+  · have hd' : decls.isEmpty = false := by simpa using hd
+    simp [hd', popFrames, FStack.pop]
 
-theorem Grow.tail {s s' : FStack} (h : Grow s s') : s'.tail = s.tail := by
-  obtain ⟨_, _, _, rfl, rfl, _⟩ := h; rfl
+theorem popFrames_push_injected (s : FStack) (decls : List (Nat × Nat)) (b : Nat × Nat) :
+    popFrames ((if decls.isEmpty then 0 else 1) + 1) ((s.push decls).push [b]) = s := by
+  have : ((s.push decls).push [b]).pop true = s.push decls := by
+    simp [FStack.push, FStack.pop]
+  have step : ∀ n (x : FStack), popFrames (n + 1) x = popFrames n (x.pop true) := fun _ _ => rfl
+  rw [step, this]
+  exact popFrames_push s decls
 
 /-- `has_empty_prefix(ns)`: the top frame binds the empty prefix to `ns`. -/
 theorem hasEmptyPrefix_iff (s : FStack) (ns : Nat) :
@@ -128,22 +164,6 @@ theorem hasEmptyPrefix_iff (s : FStack) (ns : Nat) :
       exact ⟨Env.emptyPrefix, ⟨(Env.emptyPrefix, ns), ⟨h, rfl⟩, rfl⟩, rfl⟩
     simp only [hany, if_true, beq_self_eq_true]
 
-theorem Grow.hasEmptyPrefix {s s' : FStack} (h : Grow s s') {ns : Nat}
-    (hp : s.hasEmptyPrefix ns = true) : s'.hasEmptyPrefix ns = true := by
-  rw [hasEmptyPrefix_iff] at hp ⊢
-  obtain ⟨top, extra, rest, rfl, rfl, _⟩ := h
-  simp only [FStack.top, List.headD_cons] at hp ⊢
-  exact List.mem_append_left _ hp
-
-theorem grow_addEmptyPrefix {s : FStack} (h : s ≠ []) (ns : Nat) :
-    Grow s (s.addEmptyPrefix ns) ∧ (s.addEmptyPrefix ns).hasEmptyPrefix ns = true := by
-  cases s with
-  | nil => exact absurd rfl h
-  | cons top rest =>
-    refine ⟨⟨top, [(Env.emptyPrefix, ns)], rest, rfl, rfl, by simp⟩, ?_⟩
-    rw [hasEmptyPrefix_iff]
-    simp [FStack.addEmptyPrefix, FStack.top]
-
 /-- An element name whose namespace has the empty prefix in the top frame is written bare. -/
 theorem elementFullname_bare (env : Env) (s : FStack) (name : Nat)
     (hxml : env.nsOfName name ≠ Env.xmlNamespace)
@@ -157,5 +177,43 @@ theorem elementFullname_bare (env : Env) (s : FStack) (name : Nat)
     · exact absurd (by simpa using h) h0
     · simp only [FStack.hasEmptyPrefix, beq_iff_eq] at h
       simp [h0, h1, h, qname]
+
+/-! ### Static events -/
+
+/-- Events that leave the serialiser state alone. -/
+def Output.isStatic : Output → Bool
+  | .startTagOpen _ => false
+  | .endTag _ => false
+  | _ => true
+
+theorem renderHtml_static {c : HtmlCtx} {s s' : HState} {node : Tree} {parent : Option Tree} {o : Output}
+    {tok : OutputToken} (ho : o.isStatic = true) (h : renderHtml c s node parent o = .ok (s', tok)) :
+    s' = s := by
+  cases o with
+  | startTagOpen name => cases ho
+  | endTag name => cases ho
+  | _ =>
+    simp only [renderHtml] at h
+    repeat' split at h
+    all_goals (cases h; try rfl)
+
+/-- Names that must be written without prefix: no namespace, `XHTML_NS`, MathML, SVG. -/
+def Bare (c : HtmlCtx) (name : Nat) : Prop :=
+  (c.h.isHtmlNamespace (c.env.nsOfName name) = true ∨ c.h.mustBeUnprefixed (c.env.nsOfName name) = true)
+    ∧ c.env.nsOfName name ≠ Env.xmlNamespace
+
+/-- Every end-tag token of a bare name is empty (void) or `</local>`. -/
+def EndTagsBare (c : HtmlCtx) (l : List (Path × Output × OutputToken)) : Prop :=
+  ∀ k ∈ l, ∀ name, k.2.1 = .endTag name → Bare c name →
+    k.2.2.text = [] ∨ k.2.2.text = ['<','/'] ++ c.env.localName name ++ ['>']
+
+theorem EndTagsBare.append {c : HtmlCtx} {a b : List (Path × Output × OutputToken)}
+    (ha : EndTagsBare c a) (hb : EndTagsBare c b) : EndTagsBare c (a ++ b) := by
+  intro k hk
+  rcases List.mem_append.mp hk with h | h
+  · exact ha k h
+  · exact hb k h
+
+theorem EndTagsBare.nil (c : HtmlCtx) : EndTagsBare c [] := by intro k hk; simp at hk
 
 end XotModel
